@@ -1203,6 +1203,17 @@ def sharing_docs() -> list[tuple[str, dict]]:
                              "delete": {"operationId": "delete_thing", "parameters": [{"name": "id", "in": "path", "required": True, "schema": {"type": "integer"}}, clone(common_enum)], "responses": ok}}
         P["/things"] = {"get": {"operationId": "search_things", "parameters": [clone(common), clone(common_enum)], "responses": ok}, "post": {"operationId": "make_thing", "parameters": [clone(common)], "responses": ok},
                         "parameters": [{"name": "X-Order", "in": "header", "schema": {"type": "string", "enum": ["a", "b", None], "nullable": True}}]}
+        # overriding is by (name, location) only: a path-item parameter whose *identifier* equals an operation parameter's is a
+        # different parameter; an operation-level name used in two locations still overrides the path-item one in its location
+        P["/search"] = {"parameters": [{"name": "user_id", "in": "query", "schema": {"type": "string"}}, {"name": "limit", "in": "query", "schema": {"type": "integer"}},
+                                       {"name": "X-Dry-Run", "in": "header", "schema": {"type": "boolean", "default": False}}],
+                        "get": {"operationId": "search_all", "parameters": [{"name": "userId", "in": "query", "schema": {"type": "string"}}, {"name": "limit", "in": "query", "schema": {"type": "string"}},
+                                                                            {"name": "X-Page-Size", "in": "header", "schema": {"type": "integer", "default": 20}},
+                                                                            {"name": "X-Mode", "in": "header", "schema": {"type": "string", "default": "fast"}},
+                                                                            {"name": "sid", "in": "cookie", "schema": {"type": "string", "default": "anon"}}], "responses": ok}}
+        P["/items"] = {"parameters": [{"name": "id", "in": "query", "schema": {"type": "integer"}}, {"name": "X-Trace-Id", "in": "header", "schema": {"type": "string"}}],
+                       "get": {"operationId": "list_items", "parameters": [{"name": "id", "in": "query", "schema": {"type": "string"}}, {"name": "id", "in": "header", "schema": {"type": "string"}}], "responses": ok},
+                       "post": {"operationId": "make_item", "parameters": [{"name": "X-Trace-Id", "in": "cookie", "schema": {"type": "string"}}], "responses": ok}}
         pk = list(P)
         pk = pk[variant % len(pk):] + pk[:variant % len(pk)]
         d["paths"] = {x: P[x] for x in pk}
